@@ -9,6 +9,7 @@ import (
 	"tunnox-core/internal/cloud/models"
 	"tunnox-core/internal/cloud/repos"
 	"tunnox-core/internal/core/storage"
+	"tunnox-core/internal/core/storage/hybrid"
 	"tunnox-core/internal/core/storage/memory"
 )
 
@@ -30,8 +31,8 @@ func (s *c06Store) Set(k string, v any, ttl time.Duration) error {
 	}
 	return s.Storage.Set(k, v, ttl)
 }
-func (s *c06Store) Get(k string) (any, error)  { verif_Yield(); return s.Storage.Get(k) }
-func (s *c06Store) Delete(k string) error       { verif_Yield(); return s.Storage.Delete(k) }
+func (s *c06Store) Get(k string) (any, error) { verif_Yield(); return s.Storage.Get(k) }
+func (s *c06Store) Delete(k string) error     { verif_Yield(); return s.Storage.Delete(k) }
 func (s *c06Store) AppendToList(k string, v any) error {
 	verif_Yield()
 	return s.Storage.AppendToList(k, v)
@@ -65,8 +66,12 @@ func (p *c06Mappings) GetPortMapping(id string) (*models.PortMapping, error) {
 	}
 	return nil, errors.New("not found")
 }
-func (p *c06Mappings) UpdatePortMapping(mp *models.PortMapping) error { verif_Yield(); p.m[mp.ID] = mp; return nil }
-func (p *c06Mappings) DeletePortMapping(id string) error             { verif_Yield(); delete(p.m, id); return nil }
+func (p *c06Mappings) UpdatePortMapping(mp *models.PortMapping) error {
+	verif_Yield()
+	p.m[mp.ID] = mp
+	return nil
+}
+func (p *c06Mappings) DeletePortMapping(id string) error                      { verif_Yield(); delete(p.m, id); return nil }
 func (p *c06Mappings) UpdatePortMappingStats(id string, st interface{}) error { return nil }
 
 type c06MapRepo struct {
@@ -102,6 +107,22 @@ func newC06World(ctx context.Context) *c06World {
 	return w
 }
 
+// secondNode gives the world a second service instance as a second server node has it: with
+// tiered storage every node has its own node-local cache over the one shared cache (here the
+// yielding store), otherwise both nodes talk to the same store.
+func (w *c06World) secondNode(ctx context.Context, tiered bool) *Service {
+	var st1, st2 storage.Storage = w.st, w.st
+	if tiered {
+		st1 = hybrid.NewWithSharedCache(ctx, memory.New(ctx), w.st, nil, hybrid.DefaultConfig())
+		st2 = hybrid.NewWithSharedCache(ctx, memory.New(ctx), w.st, nil, hybrid.DefaultConfig())
+		w.repo = repos.NewConnectionCodeRepository(repos.NewRepository(st1))
+		w.svc = &Service{connCodeRepo: w.repo, portMappingService: w.maps, portMappingRepo: &c06MapRepo{p: w.maps},
+			maxActiveCodesPerClient: 10, maxActiveMappingsPerClient: 50}
+	}
+	return &Service{connCodeRepo: repos.NewConnectionCodeRepository(repos.NewRepository(st2)), portMappingService: w.maps,
+		portMappingRepo: &c06MapRepo{p: w.maps}, maxActiveCodesPerClient: 10, maxActiveMappingsPerClient: 50}
+}
+
 func (w *c06World) createCode(ttl time.Duration) *models.TunnelConnectionCode {
 	now := time.Now()
 	c := &models.TunnelConnectionCode{ID: "conncode_1", Code: "abc-def-ghi", TargetClientID: 3001, TargetAddress: "tcp://10.0.0.5:3306",
@@ -115,6 +136,8 @@ func (w *c06World) createCode(ttl time.Duration) *models.TunnelConnectionCode {
 func Harness_C06_activate_race() {
 	ctx := context.Background()
 	w := newC06World(ctx)
+	// the two activations arrive at two server nodes (plain shared store, or tiered storage)
+	svc2 := w.secondNode(ctx, verif_Bool())
 	w.createCode(10 * time.Minute)
 	var m1, m2 *models.PortMapping
 	var e1, e2, e3 error
@@ -123,7 +146,7 @@ func Harness_C06_activate_race() {
 		m1, e1 = w.svc.ActivateConnectionCode(&ActivateRequest{Code: "abc-def-ghi", ListenClientID: 2001, ListenAddress: "0.0.0.0:9001"})
 	})
 	verif_Spawn(func() {
-		m2, e2 = w.svc.ActivateConnectionCode(&ActivateRequest{Code: "abc-def-ghi", ListenClientID: 2002, ListenAddress: "0.0.0.0:9002"})
+		m2, e2 = svc2.ActivateConnectionCode(&ActivateRequest{Code: "abc-def-ghi", ListenClientID: 2002, ListenAddress: "0.0.0.0:9002"})
 	})
 	if withRevoke {
 		verif_Spawn(func() { e3 = w.svc.RevokeConnectionCode("abc-def-ghi", "owner") })
